@@ -197,6 +197,7 @@ PROPS = {
         "level": "proof",
         "verus": [("columns", None)],
         "kani": {"quick": ["get_column_complete"], "thorough": []},
+        "family": ("c19", {"quick": ["quick"], "thorough": ["thorough"]}),
         "explanation": "Verus proves the column arithmetic of formatted postings on get_column, Alignment::{absolute,plus} and on the two get_column call expressions sliced out of Display for Posting: "
                        "padding is always >= 2, a short account makes the amount's numeric part end at column 52 and a balance-only posting's `=` land where it would after an amount; the indent literals "
                        "of posting and metadata lines are exactly four spaces.",
